@@ -13,6 +13,10 @@
 3. tla/link/Link2.tla composes two units; the predicted link result and program output
    are compared with what the tree's driver links in {default, -fno-common, -fPIC,
    -fPIC -shared + main, -static}.
+4. tla/link/LinkLine.tla: units delivered as libraries (archive / shared object) and named with
+   -L/-l; the driver's ld line (parse_args / run_linker, Level I) must be the command line in order
+   and link exactly when left-to-right archive resolution (Level A) says so; every line is one
+   driver call, judged on the ld line printed by -###, link success and program output.
 """
 import json, os, re, shutil
 import vt
@@ -612,8 +616,9 @@ def replay_liblines(ctx, tree, cases, compiler="chibicc", report=True):
             if b[0] != "ld-line-order" and gres.get(j):
                 ctx.oracle_disagreements += 1
                 continue
-            kinds = "%s+%s" % ("archive" if c["cfg"] == "static" or c["da"] == "a" else c["da"],
-                               "archive" if c["cfg"] == "static" or c["db"] == "a" else c["db"])
+            def kind(dl):
+                return "missing" if c["cfg"] == "static" and dl == "so" else "archive" if c["cfg"] == "static" or dl == "a" else dl
+            kinds = "%s+%s" % (kind(c["da"]), kind(c["db"]))
             ctx.report("libline:%s:%s:%s" % (c["cfg"], kinds, b[0]),
                        "%s | chibicc %s -L<liba:%s libb:%s> %s" % (b[1], " ".join(LIB_FLAGS[c["cfg"]] + (["-static"] if c["cfg"] == "static" else [])),
                                                                   c["da"], c["db"], " ".join(c["line"]).replace("M", "main.c")),
@@ -639,12 +644,36 @@ def validate_oracle(ctx, tree, cases, tag):
     print("oracle validation %s: %d units, %d disagreements" % (tag, len(units), n))
 
 
-def gen(ctx, out, workers=4, timeout=1500, simulate=None, depth=None, extra=(), **consts):
+class TlcPool:
+    """All TLC runs of the check are independent of each other: start them together (JVM start-up and the
+    small models dominate the quick tier) and collect each result where it is needed.  Counting into the
+    evidence happens on the caller's thread."""
+
+    def __init__(self, ctx, width):
+        import concurrent.futures
+        self.ctx, self.ex, self.f = ctx, concurrent.futures.ThreadPoolExecutor(width), {}
+
+    def submit(self, key, module, cfg, count=True, **kw):
+        self.f[key] = (self.ex.submit(self.ctx.tlc, "link", module, cfg, count=False, **kw), count)
+
+    def get(self, key):
+        fut, count = self.f[key]
+        res = fut.result()
+        if count:
+            self.ctx.cov["states"] += res.distinct
+            self.ctx.cov["transitions"] += res.generated
+        return res
+
+
+def gen(ctx, out, workers=4, timeout=1500, simulate=None, depth=None, extra=(), pool=None, key=None, **consts):
     cfg = ctx.cfg("link", "Linkage_mc.cfg", **consts)
     if os.path.exists(out):
         os.unlink(out)
-    return ctx.tlc("link", "Linkage", cfg, env=dict(OUT=out), workers=workers, timeout=timeout, heap="6g",
-                   simulate=simulate, depth=depth, extra=list(extra), count=not simulate)
+    kw = dict(env=dict(OUT=out), workers=workers, timeout=timeout, heap="6g", simulate=simulate, depth=depth, extra=list(extra))
+    if pool:
+        pool.submit(key, "Linkage", cfg, count=not simulate, **kw)
+        return None
+    return ctx.tlc("link", "Linkage", cfg, count=not simulate, **kw)
 
 
 def q(s):
@@ -663,14 +692,31 @@ def run(ctx):
             # 4 functions: random walks inside the closed domain (every walk ends in a complete unit) for the
             # replay; the thorough tier also model-checks the whole N = 4 graph below
             ("graph4", dict(Mode=q("graph"), N=4, SelfLoops=True), 30 if quick else 200)]
+    pool = TlcPool(ctx, 6 if quick else 3)
     for tag, consts, sim in plan:
         out = os.path.join(ctx.scratch, "units-%s.ndjson" % tag)
         if sim:
             # fixed TLC seed and one worker: the same walks in every run, so that what the unchanged tree does on
             # them is known; VERIF_SEED only selects among them (vt.subsample below)
-            g = gen(ctx, out, Emit=True, simulate=sim, depth=20, extra=["-seed", "15"], workers=1, **consts)
+            gen(ctx, out, Emit=True, simulate=sim, depth=20, extra=["-seed", "15"], workers=1, pool=pool, key=tag, **consts)
         else:
-            g = gen(ctx, out, Emit=True, **consts)
+            gen(ctx, out, Emit=True, workers=2 if quick else 4, pool=pool, key=tag, **consts)
+    controls = (("obj", dict(Mode=q("obj"), N=0, Fixed=False)), ("fn", dict(Mode=q("fn"), N=0, Fixed=False)),
+                ("graph2", dict(Mode=q("graph"), N=2, Fixed=False)),
+                ("graph2-D23-alone", dict(Mode=q("graph"), N=2, ResetCurFn=False)))
+    for tag, consts in controls:
+        pool.submit("ctl-" + tag, "Linkage", ctx.cfg("link", "Linkage_mc.cfg", **consts), count=False, workers=1)
+    pool.submit("Link2", "Link2", ctx.cfg("link", "Link2.cfg", Emit=True), env=dict(OUT=os.path.join(ctx.scratch, "links.ndjson")), workers=2)
+    pool.submit("LinkLine", "LinkLine", ctx.cfg("link", "LinkLine.cfg", Emit=True),
+                env=dict(OUT=os.path.join(ctx.scratch, "liblines.ndjson")), workers=2)
+    pool.submit("ctl-LinkLine", "LinkLine", ctx.cfg("link", "LinkLine.cfg", LFirst=True), count=False, workers=1)
+    if not quick:
+        c4 = dict(Mode=q("graph"), N=4, SelfLoops=False, InitAfterOwn=False)
+        pool.submit("graph4-full", "Linkage", ctx.cfg("link", "Linkage_mc.cfg", **c4), workers=8, timeout=2400, heap="8g")
+    total = {}
+    for tag, consts, sim in plan:          # replay each family as soon as its graph is there; the other runs go on meanwhile
+        out = os.path.join(ctx.scratch, "units-%s.ndjson" % tag)
+        g = pool.get(tag)
         if not g.ok:
             p = ctx.replay_dir("tlc-Linkage-" + tag)
             open(p + "/counterexample.txt", "w").write(g.trace_text())
@@ -684,28 +730,7 @@ def run(ctx):
                 cases.append(c)
         if len(cases) < 100:
             raise Infra("Linkage generator (%s) wrote only %d units" % (tag, len(cases)))
-        allcases.append((tag, cases))
         ctx.phase("tlc " + tag)
-    if not quick:
-        cfg4 = ctx.cfg("link", "Linkage_mc.cfg", Mode=q("graph"), N=4, SelfLoops=False, InitAfterOwn=False)
-        g4 = ctx.tlc("link", "Linkage", cfg4, workers=8, timeout=2400, heap="8g")
-        if not g4.ok:
-            p = ctx.replay_dir("tlc-Linkage-graph4-full")
-            open(p + "/counterexample.txt", "w").write(g4.trace_text())
-            json.dump(dict(kind="tlc", consts=dict(Mode=q("graph"), N=4, SelfLoops=False, InitAfterOwn=False)), open(p + "/case.json", "w"))
-            ctx.report("tlc:Linkage:graph4:%s" % g4.violated, "Level I differs from Level A on a 4-function reference graph", p)
-        ctx.phase("tlc graph4 exhaustive")
-    # sensitivity controls: the pinned algorithm must be rejected in every mode
-    for tag, consts in (("obj", dict(Mode=q("obj"), N=0, Fixed=False)), ("fn", dict(Mode=q("fn"), N=0, Fixed=False)),
-                        ("graph2", dict(Mode=q("graph"), N=2, Fixed=False)),
-                        ("graph2-D23-alone", dict(Mode=q("graph"), N=2, ResetCurFn=False))):
-        ctl = ctx.tlc("link", "Linkage", ctx.cfg("link", "Linkage_mc.cfg", **consts), workers=2, count=False)
-        if ctl.ok:
-            raise Infra("sensitivity control failed: TLC accepts the pinned linkage algorithm (%s)" % tag)
-    ctx.phase("controls")
-    total = {}
-    for tag, cases in allcases:
-        stride = 1
         if quick:
             stride = dict(obj=3, fn=1, graph2=1, graph3=8, graph4=4).get(tag, 1)
         else:            # thorough: TLC still checks every state; the two largest families are replayed in part
@@ -721,9 +746,23 @@ def run(ctx):
                         expected_rows=dict(x=mid["objrow"], fns=mid["fnrows"])))
         replay_units(ctx, tree, sel, tag, pic_every=3 if quick else 1)
         ctx.phase("replay " + tag)
+    if not quick:
+        g4 = pool.get("graph4-full")
+        if not g4.ok:
+            p = ctx.replay_dir("tlc-Linkage-graph4-full")
+            open(p + "/counterexample.txt", "w").write(g4.trace_text())
+            json.dump(dict(kind="tlc", consts=c4), open(p + "/case.json", "w"))
+            ctx.report("tlc:Linkage:graph4:%s" % g4.violated, "Level I differs from Level A on a 4-function reference graph", p)
+        ctx.phase("tlc graph4 exhaustive")
+    # sensitivity controls: the pinned algorithm must be rejected in every mode
+    for tag, consts in controls:
+        ctl = pool.get("ctl-" + tag)
+        if ctl.ok:
+            raise Infra("sensitivity control failed: TLC accepts the pinned linkage algorithm (%s)" % tag)
+    ctx.phase("controls")
     # multi-unit layer
     out = os.path.join(ctx.scratch, "links.ndjson")
-    g = ctx.tlc("link", "Link2", ctx.cfg("link", "Link2.cfg", Emit=True), env=dict(OUT=out), workers=2)
+    g = pool.get("Link2")
     if not g.ok:
         p = ctx.replay_dir("tlc-Link2")
         open(p + "/counterexample.txt", "w").write(g.trace_text())
@@ -754,12 +793,12 @@ def run(ctx):
     ctx.phase("replay links")
     # library layer: units delivered as archives / shared objects and named with -L/-l
     out = os.path.join(ctx.scratch, "liblines.ndjson")
-    g = ctx.tlc("link", "LinkLine", ctx.cfg("link", "LinkLine.cfg", Emit=True), env=dict(OUT=out), workers=2)
+    g = pool.get("LinkLine")
     if not g.ok:
         p = ctx.replay_dir("tlc-LinkLine")
         open(p + "/counterexample.txt", "w").write(g.trace_text())
         ctx.report("tlc:LinkLine:%s" % g.violated, "the driver's ld line (Level I) is not the command line in order (Level A)", p)
-    ctl = ctx.tlc("link", "LinkLine", ctx.cfg("link", "LinkLine.cfg", LFirst=True), workers=2, count=False)
+    ctl = pool.get("ctl-LinkLine")
     if ctl.ok:
         raise Infra("sensitivity control failed: TLC accepts a driver that moves -l/-Wl, in front of the inputs")
     lines = vt.read_ndjson(out)
